@@ -1,24 +1,431 @@
-(* Line-protocol driver around the extracted C08 model (I/O latch + session model).
+(* Line-protocol driver around the extracted C08 model (I/O latch + session model + fault-aware commit model).
      G <ev>...   ev = E<kind><io_failed><closed> (wrapper entry, flags on entry; kind 0 len 1 read 2 write
                       3 write_best_effort 4 set_len 5 sync_data 6 close 7 drop)
                     | B<op><ok> (call that reached the backend; op 0 len 1 read 2 write 3 set_len 4 sync 5 close)
          -> 1            the log is a run of the latch model
           | 0 <index>    first log event the model cannot produce
      D <letters> I = a latched backend failure, C/c = commit returned Ok/Err, S = shutdown (Drop for Database)
-         -> <recovery_required left in the file: 0|1>                                              *)
+         -> <recovery_required left in the file: 0|1>
+
+     T <tag> <hdr hex 320> <len> { G <kind> <call>... E }...
+         the FAULT-FREE backend-call stream of one history (from a point where the header in memory is the header
+         on disk: after creation, after check_integrity) cut into protocol-level segments; kind = txn1 | txn2 | nd |
+         abort | gap | compact | close | open_<p>_<vq> (from the history descriptor, not from the stream);
+         call = Q (read / len) | H<hex 320> (header write) | W<off>:<len> | L<n> (set_len) | S (sync_data).
+         Every segment is fed to the extracted protocol model (Storage/Protocol.v run_step / recovery_run, abstract
+         inputs read off the stream exactly as ocaml/c01_driver.ml does) and the operations the model emits are
+         compared with the real ones per sync window (header writes with all 320 bytes and set_len in order, page
+         writes as a set).
+         -> T ok | T DIFF seg <i> <kind>: <what> | model=<..> | real=<..>     (later segments of the trace: broken)
+     F <tag> <seg> <pos> <permanent 0|1> <keep> <be 0|1> <res ok|err|none|panic> <hdr hex|?> <len|?> <pending>...
+         a faulted run of that history: the call at position <pos> of segment <seg> failed (a failing write stored
+         <keep> bytes; <be>: the latch log says it was best-effort writeback); <res> = result class of the API call
+         in progress; header and length of the image at the last sync_data that succeeded, and the operations the
+         backend accepted since (W<off>:<len> | L<n>).  The extracted step_f / recovery_f is run on the model's step
+         that issues the corresponding call (same sync window; the same operation, or the window's read/len calls)
+         with the oracle fail_at, and must predict
+           (i)  the result class (Err iff a required call fails; `none` is echoed: Drop returns nothing),
+           (ii) the cut: summary header and length = those of the surviving durable image, and the accepted
+                operations are a weakening (sub-multiset, a write possibly shortened) of the operations of the
+                fault-free sync window the model names -- i.e. the surviving bytes are a crash image of that window.
+         -> <ok|err|none> hdr=<ok|DIFF..|?> len=<ok|DIFF|?> sub=<ok|DIFF..|?>   |   BROKEN <why>                    *)
 open C08_model
 
 let rec pos_of_int i = if i = 1 then XH else if i land 1 = 1 then XI (pos_of_int (i lsr 1)) else XO (pos_of_int (i lsr 1))
-let n_of_small i = if i = 0 then N0 else Npos (pos_of_int i)       (* only for single digits of the protocol *)
+let n_of_small i = if i = 0 then N0 else Npos (pos_of_int i)       (* text -> N through OCaml's int as a converter (offsets < 2^62) *)
 let rec int_of_pos = function XH -> 1 | XO p -> 2 * int_of_pos p | XI p -> 2 * int_of_pos p + 1
-let int_of_n = function N0 -> 0 | Npos p -> int_of_pos p            (* only for printing an index *)
+let int_of_n = function N0 -> 0 | Npos p -> int_of_pos p            (* only for printing / comparing lengths *)
 let digit c = Char.code c - Char.code '0'
+let n_of_dec s = n_of_small (int_of_string s)
+let rec nat_of_int i = if i <= 0 then O else S (nat_of_int (i - 1))
+let byte_tab : n array = Array.init 256 n_of_small
+let bytes_of_hex s : n list =
+  if String.length s mod 2 <> 0 then failwith "odd hex";
+  List.init (String.length s / 2) (fun i -> byte_tab.(int_of_string ("0x" ^ String.sub s (2 * i) 2)))
+let hex_of_bytes (b : n list) : string = String.concat "" (List.map (fun x -> Printf.sprintf "%02x" (int_of_n x)) b)
 
 let parse_ev (s : string) : logev =
   match s.[0] with
   | 'E' -> LEnter (n_of_small (digit s.[1]), s.[2] = '1', s.[3] = '1')
   | 'B' -> LBackend (n_of_small (digit s.[1]), s.[2] = '1')
   | _ -> failwith ("event " ^ s)
+
+(* ---------------------------------------------------------------- protocol replay (as ocaml/c01_driver.ml) *)
+type rcall = RQ | RH of n list | RW of n * n | RL of n | RS
+
+let parse_call (s : string) : rcall =
+  match s.[0] with
+  | 'Q' -> RQ
+  | 'S' -> RS
+  | 'H' -> RH (bytes_of_hex (String.sub s 1 (String.length s - 1)))
+  | 'L' -> RL (n_of_dec (String.sub s 1 (String.length s - 1)))
+  | 'W' -> (match String.split_on_char ':' (String.sub s 1 (String.length s - 1)) with
+            | [o; l] -> RW (n_of_dec o, n_of_dec l)
+            | _ -> failwith ("call " ^ s))
+  | _ -> failwith ("call " ^ s)
+
+type awin = { nonpage : string list; pageset : (int * int) list; synced : bool }
+
+let abs_stream (ops : rcall list) : awin list =
+  let fin np pg synced = { nonpage = List.rev np; pageset = List.sort compare pg; synced } in
+  let rec go np pg acc = function
+    | [] -> List.rev (if np = [] && pg = [] then acc else fin np pg false :: acc)
+    | RS :: r -> go [] [] (fin np pg true :: acc) r
+    | RQ :: r -> go np pg acc r
+    | RH h :: r -> go (("H:" ^ hex_of_bytes h) :: np) pg acc r
+    | RL x :: r -> go (("L:" ^ string_of_int (int_of_n x)) :: np) pg acc r
+    | RW (o, l) :: r -> go np ((int_of_n o, int_of_n l) :: pg) acc r in
+  go [] [] [] ops
+
+(* a page write is handed to the model as (offset, [length]): the model is parametric in page contents *)
+let rcall_of_op (o : op) : rcall =
+  match o with
+  | Sync -> RS
+  | SetLen x -> RL x
+  | Write (off, data) ->
+      if off = N0 && List.length data = 320 then RH data
+      else (match data with [l] -> RW (off, l) | _ -> RW (off, n_of_small (List.length data)))
+
+let show_stream (ws : awin list) : string =
+  let god h = if String.length h >= 22 then String.sub h 20 2 else "??" in
+  String.concat " " (List.map (fun w ->
+    String.concat "," (List.map (fun s -> if String.length s > 2 && String.sub s 0 2 = "H:" then "H" ^ god s else s) w.nonpage)
+    ^ (if w.pageset = [] then "" else Printf.sprintf "+%dp" (List.length w.pageset))
+    ^ (if w.synced then ";S" else ";-")) ws)
+
+let first_stream_diff (m : awin list) (r : awin list) : string option =
+  let rec go i m r = match m, r with
+    | [], [] -> None
+    | [], _ -> Some (Printf.sprintf "the real stream has %d more window(s) from window %d on" (List.length r) i)
+    | _, [] -> Some (Printf.sprintf "the model emits %d more window(s) from window %d on" (List.length m) i)
+    | a :: m', b :: r' ->
+        if a.synced <> b.synced then Some (Printf.sprintf "window %d: sync_data %s" i (if a.synced then "missing in the real stream" else "only in the real stream"))
+        else if a.nonpage <> b.nonpage then begin
+          let rec fd j x y = match x, y with
+            | [], [] -> "?"
+            | [], s :: _ -> Printf.sprintf "extra real op %d: %s" j (String.sub s 0 (min 24 (String.length s)))
+            | s :: _, [] -> Printf.sprintf "missing real op %d: %s" j (String.sub s 0 (min 24 (String.length s)))
+            | s :: x', t :: y' ->
+                if s = t then fd (j + 1) x' y'
+                else if String.length s = String.length t && String.length s > 600 then begin
+                  let k = ref 0 in
+                  while !k < String.length s && s.[!k] = t.[!k] do incr k done;
+                  Printf.sprintf "header write %d differs at byte %d (model %s real %s)" j ((!k - 2) / 2)
+                    (String.sub s (2 + 2 * ((!k - 2) / 2)) 2) (String.sub t (2 + 2 * ((!k - 2) / 2)) 2)
+                end else Printf.sprintf "op %d: model %s real %s" j (String.sub s 0 (min 24 (String.length s))) (String.sub t 0 (min 24 (String.length t))) in
+          Some (Printf.sprintf "window %d: %s" i (fd 0 a.nonpage b.nonpage))
+        end
+        else if a.pageset <> b.pageset then Some (Printf.sprintf "window %d: page writes differ (model %d, real %d)" i (List.length a.pageset) (List.length b.pageset))
+        else go (i + 1) m' r' in
+  go 0 m r
+
+let sub_bytes (l : n list) (off : int) (len : int) : n list =
+  let a = Array.of_list l in
+  if Array.length a < off + len then [] else Array.to_list (Array.sub a off len)
+let hdr_layout (h : n list) = sub_bytes h 24 8
+let hdr_slot (h : n list) (k : bool) = sub_bytes h (if k then 192 else 64) 128
+let hdr_god (h : n list) : n = match sub_bytes h 9 1 with [g] -> g | _ -> N0
+let prim_of_god (g : n) : bool = flag g (n_of_small 1)
+
+let cut_windows (ops : rcall list) : rcall list list * rcall list =
+  let rec go cur acc = function
+    | [] -> (List.rev acc, List.rev cur)
+    | RS :: r -> go [] (List.rev cur :: acc) r
+    | RQ :: r -> go cur acc r
+    | o :: r -> go (o :: cur) acc r in
+  go [] [] ops
+
+(* one model step of a segment: a protocol step from a state, or the recovery run of an open *)
+type mstep = MStep of pst * pstep | MRec of dsum * roracle * acc
+
+let mstep_ops = function
+  | MStep (st, s) -> (run_step st s).a_ops
+  | MRec (_, _, a) -> a.a_ops
+
+(* feed one segment to the model: the state afterwards, the steps in order, a note if the segment is not one the
+   model can follow *)
+let feed_segment (st : pst) (kind : string) (real : rcall list) (later_layout : n list option) : pst * mstep list * string option =
+  let pages_of w = List.filter_map (function RW (o, l) -> Some (o, [l]) | _ -> None) w in
+  let hdrs_of w = List.filter_map (function RH h -> Some h | _ -> None) w in
+  let all_hdrs = hdrs_of real in
+  match String.split_on_char '_' kind with
+  | "open" :: p :: vq :: _ ->
+      let d0 = st.p_d in
+      let d = { d_hdr = d0.d_hdr; d_len = cur_len st; d_p = (p = "1"); d_rp = []; d_vq = (vq = "1"); d_rq = None } in
+      let lay = (match all_hdrs with h :: _ -> hdr_layout h | [] -> layout_at (hget d0.d_hdr)) in
+      let q = (match List.rev all_hdrs with h :: _ -> hdr_slot h (prim_of_god (hdr_god h)) | [] -> []) in
+      let o = { ro_lay = lay; ro_quick = List.length all_hdrs <= 2; ro_q = q } in
+      (match recovery_run d o with
+       | None -> (st, [], Some "the model's open fails (recovery_run = None) but the real crate opened the image")
+       | Some a -> (a.a_st, [MRec (d, o, a)], None))
+  | k :: _ ->
+      let (wins, tail) = cut_windows real in
+      let wins_a = Array.of_list wins in
+      let nw = Array.length wins_a in
+      let st = ref st in
+      let steps = ref [] in
+      let note = ref None in
+      let commits = ref 0 in
+      let skip_hdr_windows = ref 0 in
+      let step s = steps := MStep (!st, s) :: !steps; st := (run_step !st s).a_st in
+      let next_layout_from i =
+        let rec find j = if j >= nw then (match hdrs_of tail with h :: _ -> Some (hdr_layout h) | [] -> later_layout)
+          else match hdrs_of wins_a.(j) with h :: _ -> Some (hdr_layout h) | [] -> find (j + 1) in
+        match find i with Some l -> l | None -> (!st).p_mem.hm_layout in
+      let first_op_after i = if i + 1 < nw then (match wins_a.(i + 1) with o :: _ -> Some o | [] -> Some RS)
+                             else (match tail with o :: _ -> Some o | [] -> None) in
+      let feed_plain i w =
+        let pg = pages_of w in
+        if pg <> [] then step (PEvict pg);
+        List.iter (function
+          | RL x when N.ltb (cur_len !st) x -> step (PGrow (x, next_layout_from i))
+          | _ -> ()) w in
+      for i = 0 to nw - 1 do
+        let w = wins_a.(i) in
+        match hdrs_of w with
+        | [] -> feed_plain i w
+        | h :: _ ->
+            if !skip_hdr_windows > 0 then begin
+              decr skip_hdr_windows;
+              let pg = pages_of w in if pg <> [] then step (PEvict pg)
+            end else begin
+              let pg = pages_of w in
+              if pg <> [] then step (PEvict pg);
+              incr commits;
+              let m = (!st).p_mem in
+              let two = (match k with
+                | "txn1" -> false | "txn2" | "close" -> true
+                | _ -> N.eqb (hdr_god h) (hm_god m)) in
+              let q = hdr_slot h (not m.hm_prim) in
+              let last = if two then i + 1 else i in
+              let shrink = (match first_op_after last with
+                | Some (RL x) when N.ltb x (cur_len !st) -> Some (x, hdr_layout h)
+                | _ -> None) in
+              if two then skip_hdr_windows := 1;
+              if k = "close" then begin
+                skip_hdr_windows := 3;
+                step (PClose (q, [], [], shrink))
+              end else step (PCommit (two, q, [], [], shrink))
+            end
+      done;
+      (let pg = pages_of tail in if pg <> [] then step (PEvict pg));
+      (match k with
+       | "txn1" | "txn2" | "close" -> if !commits <> 1 then note := Some (Printf.sprintf "%d commits in a segment that must hold exactly one" !commits)
+       | "nd" | "abort" | "gap" -> if !commits <> 0 then note := Some "header writes outside a durable commit"
+       | _ -> ());
+      (!st, List.rev !steps, !note)
+  | [] -> (st, [], Some "empty segment kind")
+
+(* ---------------------------------------------------------------- traces *)
+type seg = { kind : string; real : rcall array; st_before : pst; steps : mstep list; seg_ok : bool }
+let traces : (string, seg array) Hashtbl.t = Hashtbl.create 64
+
+let run_trace (toks : string list) : string =
+  match toks with
+  | tag :: hdr :: len :: rest ->
+      let hdr = bytes_of_hex hdr and len0 = n_of_dec len in
+      (* operations accepted since the last sync_data before the trace starts (tokens before the first G) *)
+      let rec split_pre acc = function
+        | "G" :: _ as r -> (List.rev acc, r)
+        | t :: r -> split_pre (parse_call t :: acc) r
+        | [] -> (List.rev acc, []) in
+      let (pre_ops, rest) = split_pre [] rest in
+      let pre_win = List.filter_map (function
+        | RW (o, l) -> Some (Write (o, [l])) | RL x -> Some (SetLen x) | _ -> None) pre_ops in
+      (* split into segments *)
+      let segs = ref [] in
+      let cur_kind = ref "" and cur = ref [] in
+      List.iter (fun t ->
+        if t = "G" then () else
+        if t = "E" then (segs := (!cur_kind, List.rev !cur) :: !segs; cur_kind := ""; cur := [])
+        else if !cur_kind = "" then cur_kind := t
+        else cur := parse_call t :: !cur) rest;
+      let segs = Array.of_list (List.rev !segs) in
+      let m0 = parse_hdr hdr in
+      let d0 = { d_hdr = hdr; d_len = len0; d_p = m0.hm_prim; d_rp = []; d_vq = true; d_rq = None } in
+      let st = ref { p_d = d0; p_win = pre_win; p_mem = m0; p_rfs = false; p_open = m0.hm_rr } in
+      let broken = ref None in
+      let out = Array.mapi (fun i (kind, real) ->
+        match !broken with
+        | Some _ -> { kind; real = Array.of_list real; st_before = !st; steps = []; seg_ok = false }
+        | None ->
+            let later = (let r = ref None in
+              for j = Array.length segs - 1 downto i + 1 do
+                (match List.filter_map (function RH h -> Some h | _ -> None) (Stdlib.snd segs.(j)) with h :: _ -> r := Some (hdr_layout h) | [] -> ())
+              done; !r) in
+            let st0 = !st in
+            let (st', steps, note) = (try feed_segment st0 kind real later with Failure e -> (st0, [], Some ("driver: " ^ e))) in
+            let mops = List.concat_map mstep_ops steps in
+            let ms = abs_stream (List.map rcall_of_op mops) and rs = abs_stream real in
+            let verdict = (match note with Some w -> Some w | None -> first_stream_diff ms rs) in
+            (match verdict with
+             | None -> ()
+             | Some w -> broken := Some (Printf.sprintf "seg %d %s: %s | model=%s | real=%s" i kind w (show_stream ms) (show_stream rs)));
+            st := st';
+            { kind; real = Array.of_list real; st_before = st0; steps; seg_ok = (verdict = None) }) segs in
+      Hashtbl.replace traces tag out;
+      (match !broken with None -> "T ok" | Some w -> "T DIFF " ^ w)
+  | _ -> "BADLINE"
+
+(* ---------------------------------------------------------------- faulted runs *)
+let op_matches (c : rcall) (o : op) : bool =
+  match c, rcall_of_op o with
+  | RH _, RH _ -> true
+  | RW (a, l), RW (b, m) -> a = b && l = m
+  | RL a, RL b -> a = b
+  | RS, RS -> true
+  | _, _ -> false
+
+(* the calls of a model step, given the number of read/len calls of each sync window of the segment that are still
+   to be placed (they go in front of the first operation the model issues in that window) *)
+let queries_for (ops : op list) (win0 : int) (nq : int array) (placed : bool array) : int list * int =
+  let w = ref win0 in
+  let qs = List.map (fun o ->
+    let q = if !w < Array.length nq && not placed.(!w) then (placed.(!w) <- true; nq.(!w)) else 0 in
+    (match o with Sync -> incr w | _ -> ());
+    q) ops in
+  (qs, !w)
+
+let count_some (cs : call list) (upto : int) : int =
+  let rec go i acc = function
+    | [] -> acc
+    | (_, c) :: r -> if i >= upto then acc else go (i + 1) (match c with Some _ -> acc + 1 | None -> acc) r in
+  go 0 0 cs
+
+type pend = PW of int * int | PL of int
+
+let parse_pend (s : string) : pend =
+  match s.[0] with
+  | 'L' -> PL (int_of_string (String.sub s 1 (String.length s - 1)))
+  | 'W' -> (match String.split_on_char ':' (String.sub s 1 (String.length s - 1)) with
+            | [o; l] -> PW (int_of_string o, int_of_string l)
+            | _ -> failwith ("pending " ^ s))
+  | _ -> failwith ("pending " ^ s)
+
+(* the accepted operations are a weakening of the window's operations: each matches a distinct operation of the
+   window, a write possibly shortened *)
+let sub_check (pending : pend list) (wops : op list) : string =
+  let avail = ref (List.map (fun o -> match rcall_of_op o with
+    | RH _ -> Some (PW (0, 320)) | RW (o, l) -> Some (PW (int_of_n o, int_of_n l)) | RL x -> Some (PL (int_of_n x)) | _ -> None) wops
+    |> List.filter_map (fun x -> x)) in
+  let take p =
+    let rec go acc = function
+      | [] -> None
+      | a :: r ->
+          let ok = (match p, a with
+            | PW (o, l), PW (o', l') -> o = o' && l <= l'
+            | PL x, PL y -> x = y
+            | _, _ -> false) in
+          if ok then Some (List.rev_append acc r) else go (a :: acc) r in
+    go [] !avail in
+  let bad = List.filter (fun p -> match take p with Some r -> avail := r; false | None -> true) pending in
+  match bad with
+  | [] -> "ok"
+  | p :: _ -> Printf.sprintf "DIFF(%s-not-in-the-model's-window-of-%d-ops)"
+                (match p with PW (o, l) -> Printf.sprintf "W%d:%d" o l | PL x -> Printf.sprintf "L%d" x) (List.length wops)
+
+(* the operations of the tw-th sync window of the model's fault-free stream, counted from the start of segment si
+   (the window that is open when the segment starts included; it may end in a later segment) *)
+let model_window (segs : seg array) (si : int) (tw : int) : op list =
+  let buf = ref (List.rev segs.(si).st_before.p_win) and w = ref 0 and res = ref None in
+  let feed o =
+    if !res = None then
+      (match o with
+       | Sync -> if !w = tw then res := Some (List.rev !buf) else (incr w; buf := [])
+       | _ -> buf := o :: !buf) in
+  let i = ref si in
+  while !res = None && !i < Array.length segs do
+    List.iter feed (List.concat_map mstep_ops segs.(!i).steps); incr i
+  done;
+  match !res with Some l -> l | None -> if !w = tw then List.rev !buf else []
+
+let run_fault (toks : string list) : string =
+  match toks with
+  | tag :: seg :: pos :: perm :: keep :: be :: res :: hdr :: len :: pending ->
+      (match Hashtbl.find_opt traces tag with
+       | None -> "BROKEN no trace " ^ tag
+       | Some segs ->
+           let si = int_of_string seg and pos = int_of_string pos in
+           if si >= Array.length segs then "BROKEN no such segment" else
+           let sg = segs.(si) in
+           if not sg.seg_ok then "BROKEN the model does not follow the fault-free stream of this trace (see its T line)" else
+           if pos >= Array.length sg.real then "BROKEN position outside the segment" else begin
+             let perm = (perm = "1") and be = (be = "1") and keep = nat_of_int (int_of_string keep) in
+             (* sync windows of the real segment: index of the window of every call, read/len calls per window *)
+             let nwin = 1 + Array.fold_left (fun a c -> if c = RS then a + 1 else a) 0 sg.real in
+             let nq = Array.make nwin 0 in
+             let win_of = Array.make (Array.length sg.real) 0 in
+             let w = ref 0 in
+             Array.iteri (fun i c -> win_of.(i) <- !w; (match c with RQ -> nq.(!w) <- nq.(!w) + 1 | RS -> incr w | _ -> ())) sg.real;
+             let target = sg.real.(pos) and tw = win_of.(pos) in
+             let placed = Array.make nwin false in
+             (* the steps of the segment, and a last empty eviction that hosts the read/len calls of windows in which
+                the model issues nothing *)
+             let last_st = (match List.rev sg.steps with
+               | MStep (st, s) :: _ -> (run_step st s).a_st | MRec (_, _, a) :: _ -> a.a_st | [] -> sg.st_before) in
+             let steps = sg.steps @ [MStep (last_st, PEvict [])] in
+             let win = ref 0 in
+             let result = ref None in
+             List.iteri (fun idx ms ->
+               if !result = None then begin
+                 let ops = mstep_ops ms in
+                 let is_last = (idx = List.length steps - 1) in
+                 let (qs0, wend) = queries_for ops !win nq placed in
+                 (* trailing: every window not yet hosted, if this is the last step *)
+                 let trailing = if is_last then (let t = ref 0 in Array.iteri (fun j p -> if not p then (t := !t + nq.(j); placed.(j) <- true)) placed; !t) else 0 in
+                 let qs = List.map nat_of_int (qs0 @ [trailing]) in
+                 let calls : call list = (match ms with
+                   | MStep (st, s) -> step_calls st { rq_step = s; rq_be = be; rq_qs = qs }
+                   | MRec (_, _, a) -> recovery_calls a qs) in
+                 (* find the call: same window, same operation / a read-len call of that window *)
+                 let cw = ref !win in
+                 let found = ref None in
+                 List.iteri (fun ci (_, c) ->
+                   if !found = None then begin
+                     (match c, target with
+                      | None, RQ -> if !cw = tw || (is_last && !cw <= tw) then found := Some ci
+                      | Some o, t when t <> RQ -> if !cw = tw && op_matches t o then found := Some ci
+                      | _, _ -> ());
+                     (match c with Some Sync -> incr cw | _ -> ())
+                   end) calls;
+                 (match !found with
+                  | None -> ()
+                  | Some ci ->
+                      let fo = fail_at (nat_of_int ci) perm keep in
+                      (match ms with
+                       | MStep (st, s) ->
+                           let (s', ok) = step_f (f_init st) { rq_step = s; rq_be = be; rq_qs = qs } fo in
+                           let a = run_step st s in
+                           result := Some (s', ok, a, List.length st.p_win + count_some calls ci, (is_evict s && be))
+                       | MRec (d, o, a) ->
+                           (match recovery_f d o qs fo with
+                            | Some (s', ok) -> result := Some (s', ok, a, count_some calls ci, false)
+                            | None -> ())));
+                 win := wend
+               end) steps;
+             match !result with
+             | None -> "BROKEN the model issues no such call in sync window " ^ string_of_int tw ^ " of the segment"
+             | Some (s', ok, a, napplied, be_step) ->
+                 let pred = if res = "none" then "none" else if ok then "ok" else "err" in
+                 if hdr = "?" || ok then Printf.sprintf "%s hdr=? len=? sub=?" pred
+                 else begin
+                   let real_hdr = bytes_of_hex hdr in
+                   let mh = s'.f_st.p_d.d_hdr in
+                   let hv = if bytes_eqb mh real_hdr then "ok" else begin
+                     let ma = Array.of_list mh and ra = Array.of_list real_hdr in
+                     let k = ref 0 in
+                     while !k < Array.length ma && !k < Array.length ra && ma.(!k) = ra.(!k) do incr k done;
+                     Printf.sprintf "DIFF(byte-%d)" !k end in
+                   let lv = if int_of_n s'.f_st.p_d.d_len = int_of_string len then "ok"
+                            else Printf.sprintf "DIFF(model-%d)" (int_of_n s'.f_st.p_d.d_len) in
+                   ignore be_step; ignore a; ignore napplied;
+                   (* the accepted operations against the WHOLE fault-free sync window of the model (its steps issue
+                      the window's operations in another order than the write buffer does: C01 S2 iii compares sets) *)
+                   let sv = sub_check (List.map parse_pend pending) (model_window segs si tw) in
+                   Printf.sprintf "%s hdr=%s len=%s sub=%s" pred hv lv sv
+                 end
+           end)
+  | _ -> "BADLINE"
 
 let () =
   try
@@ -37,6 +444,8 @@ let () =
         let s = drun d_open evs in
         print_endline (if s.d_recovery_on_disk then "1" else "0")
       | ["D"] -> print_endline "1"
+      | "T" :: toks -> print_endline (try run_trace toks with Failure e -> "T DRIVER " ^ e)
+      | "F" :: toks -> print_endline (try run_fault toks with Failure e -> "BROKEN driver: " ^ e)
       | _ -> print_endline "BADLINE")
     done
   with End_of_file -> ()
